@@ -135,9 +135,9 @@ def build_val(v):
     if k == "VNone":
         return val.None_(*T.build_row(v[1]))
     if k == "VLeft":
-        return val.Left(bl(v[1]), T.build_row(v[2]))
+        return val.Left(T.as_iterable(bl(v[1])), T.as_iterable(T.build_row(v[2])))
     if k == "VRight":
-        return val.Right(T.build_row(v[1]), bl(v[2]))
+        return val.Right(T.as_iterable(T.build_row(v[1])), T.as_iterable(bl(v[2])))
     if k == "VTuple":
         return val.Tuple(*bl(v[1]))
     if k == "VTrue":
@@ -1165,3 +1165,248 @@ def requested_call_lit(o):
         return None
     return gapp("OCall" if o[0] == "Call" else "OLoadFunc", T.lit_poly_obj(T.build_poly(o[1])),
                 T.lit_func_obj(T.build_func(o[2])), glist(T.lit_arg_obj(T.build_arg(a)) for a in o[3]))
+
+
+# ----------------------------------------------------------------------------- seeded round 4
+# (a) constructor arguments declared `Iterable[...]` handed over as something that is not a list.  Every term stream
+# above gives lists to the public constructors; a constructor that walks such an argument twice, indexes it or takes
+# its length is correct for lists and loses the payload / raises for a generator, an iterator or a map object.
+
+
+def gen_iter_case(rng):
+    """A case (any of the term kinds) whose term holds at least one Either / Left / Right -- the constructors with
+    `Iterable`-typed arguments --, mostly with a non-empty payload, to be built in a random non-list iteration mode."""
+    mode = rng.choice(T.ITER_MODES[:3] * 3 + T.ITER_MODES[3:])       # mostly the one-shot ones
+    d = rng.choice([0, 1, 1, 2])
+    row = lambda lo=0: T.gen_row(rng, d, lo, 3)
+    either = lambda: ["Either", row(rng.choice([0, 1])), row(rng.choice([0, 1]))]
+    vals = lambda: [gen_val(rng, rng.choice([0, 1])) for _ in range(rng.choice([0, 1, 1, 2, 2, 3]))]
+
+    def lr(depth=1):
+        vs = vals()
+        if depth > 0 and rng.random() < 0.4:
+            vs.insert(rng.randint(0, len(vs)), lr(depth - 1))
+        return ["VLeft", vs, T.gen_row(rng, 1)] if rng.random() < 0.5 else ["VRight", T.gen_row(rng, 1), vs]
+
+    def inval():
+        v = lr()
+        r = rng.random()
+        return (v if r < 0.4 else ["VTuple", [v]] if r < 0.55 else ["VSome", [["VTrue"], v]] if r < 0.7 else
+                ["VSum", 1, ["Sum", [[], [["Qubit"]]]], [v]] if r < 0.85 else ["VList", [v], ["Qubit"]])
+
+    def inty():
+        t = either()
+        r = rng.random()
+        return (t if r < 0.35 else ["Sum", [[t], []]] if r < 0.5 else ["Tuple", [["Qubit"], t]] if r < 0.6 else
+                ["Func", [t], [either()], []] if r < 0.75 else ["List", t] if r < 0.85 else
+                ["Opaque", "T", "A", [["T", t]], "my.ext"])
+
+    r = rng.random()
+    if r < 0.12:
+        c = {"kind": "sugar", "s": either()}
+    elif r < 0.27:
+        c = {"kind": "ty", "t": inty()}
+    elif r < 0.32:
+        c = {"kind": "arg", "a": rng.choice([["T", inty()], ["Seq", [["T", either()], ["N", 3]]]])}
+    elif r < 0.52:
+        c = {"kind": "valsugar", "s": lr(0)}
+    elif r < 0.72:
+        c = {"kind": "val", "v": inval()}
+    else:
+        t = either()
+        o = rng.choice([["Const", inval()], ["Const", inval()], ["Const", inval()], ["LoadConst", inty()], ["Input", [inty()]],
+                        ["Tag", rng.choice([0, 1]), t], ["Conditional", t, row(), row()],
+                        ["DataflowBlock", row(), t, row(), T.gen_reqs(rng)], ["Noop", inty()], ["CallIndirect", [[inty()], row(), []]]])
+        c = {"kind": rng.choice(["op", "hop"]), "o": o}
+    return {**c, "it": mode}
+
+
+# (b) order edges at BOTH sides of one dataflow node.  The offset an order edge is written with is the number of value
+# (+ static) ports of the node *in that direction*; every wired document above has its order edges at Input (outgoing
+# only), Output (incoming only) or one side of a Call.  The writer below makes chains Input -> a -> b -> ... -> Output
+# through nodes whose numbers of input and output ports differ (extension operations, Call with its static port,
+# LoadConstant / LoadFunction, CallIndirect, Tag, nested DFG / TailLoop / Conditional / CFG), hand-written: no library
+# object is involved, the arities are counted here from the JSON.
+
+_WT = [_Q, _I, _B]
+
+
+def _wrow(rng, lo=0, hi=3):
+    return [_copy.deepcopy(rng.choice(_WT)) for _ in range(rng.randint(lo, hi))]
+
+
+def _jdfop(rng, kind, callee=None):
+    """A hand-written dataflow operation: (json without parent, value input types, output types, static inputs)."""
+    i, o = _wrow(rng), _wrow(rng)
+    if kind == "Extension":
+        j = {"op": "Extension", "extension": rng.choice(["demo.ext", "my.ext"]), "name": rng.choice(["op", "And", "Init"]),
+             "signature": _G(i, o, T.gen_reqs(rng) if rng.random() < 0.3 else ()), "description": rng.choice(["", "does things"]),
+             "args": []}
+        return j, i, o, 0
+    if kind in ("Call", "LoadFunction"):
+        sig, targs, inst = callee
+        j = {"op": kind, "func_sig": _copy.deepcopy(sig), "type_args": _copy.deepcopy(targs), "instantiation": _copy.deepcopy(inst)}
+        if kind == "Call":
+            return j, _copy.deepcopy(inst["input"]), _copy.deepcopy(inst["output"]), 1
+        return j, [], [_copy.deepcopy(inst)], 1
+    if kind == "LoadConstant":
+        t = _copy.deepcopy(rng.choice([_B, {"t": "Sum", "s": "Unit", "size": 1}]))
+        return {"op": "LoadConstant", "datatype": t}, [], [t], 1
+    if kind == "CallIndirect":
+        g = _G(i, o)
+        return {"op": "CallIndirect", "signature": g}, [_copy.deepcopy(g)] + i, o, 0
+    if kind in ("DFG", "CFG"):
+        return {"op": kind, "signature": _G(i, o)}, i, o, 0
+    if kind == "Conditional":
+        rows = [_wrow(rng, 0, 2) for _ in range(rng.choice([1, 2, 3]))]
+        s = {"t": "Sum", "s": "General", "rows": _copy.deepcopy(rows)}
+        return {"op": "Conditional", "other_inputs": i, "outputs": o, "sum_rows": rows, "extension_delta": []}, [s] + i, o, 0
+    if kind == "TailLoop":
+        rest = _wrow(rng, 0, 2)
+        return ({"op": "TailLoop", "just_inputs": i, "just_outputs": o, "rest": rest, "extension_delta": T.gen_reqs(rng)},
+                i + _copy.deepcopy(rest), o + _copy.deepcopy(rest), 0)
+    if kind == "Tag":
+        rows = [_wrow(rng, 0, 3) for _ in range(rng.choice([1, 2, 3]))]
+        tag = rng.randrange(len(rows))
+        return ({"op": "Tag", "tag": tag, "variants": rows}, _copy.deepcopy(rows[tag]),
+                [{"t": "Sum", "s": "General", "rows": _copy.deepcopy(rows)}], 0)
+    raise AssertionError(kind)
+
+
+def gen_jorderdoc(rng):
+    """A wired hand-written document rich in state-order edges: in every dataflow container the children are listed
+    Input, Output, then a few dataflow operations of random (mostly asymmetric) arities; value edges between ports of
+    equal type, static edges from the declared function / a constant, and order edges along chains Input -> .. -> Output
+    plus random extra ones (always from an earlier to a later sibling), each END written without an offset (75 %, the
+    hugr-rs way) or with the order port's explicit offset."""
+    nodes, edges, arity = [], [], {}
+    body = _G(_wrow(rng), _wrow(rng))
+    params = [T.gen_jparam(rng, 1) for _ in range(rng.choice([0, 0, 1, 2]))]
+    callee = ({"params": params, "body": body}, [_jarg_for(rng, p) for p in params], _copy.deepcopy(body))
+    module = rng.random() < 0.7
+    top_i, top_o = _wrow(rng), _wrow(rng)
+    if module:
+        nodes += [{"parent": 0, "op": "Module"},
+                  {"parent": 0, "op": "FuncDecl", "name": rng.choice(["callee", "é"]), "signature": _copy.deepcopy(callee[0])},
+                  {"parent": 0, "op": "FuncDefn", "name": "main", "signature": {"params": [], "body": _G(top_i, top_o)}}]
+        top = 2
+    else:
+        nodes.append({"parent": 0, "op": "DFG", "signature": _G(top_i, top_o)})
+        top = 0
+    kinds = ["Extension"] * 6 + ["LoadConstant", "CallIndirect", "DFG", "DFG", "Tag", "TailLoop", "Conditional", "CFG"]
+    if module:
+        kinds += ["Call", "Call", "Call", "LoadFunction"]
+
+    def add(j, parent):
+        nodes.append({**j, "parent": parent})
+        return len(nodes) - 1
+
+    def end(n, d):                                  # one end of an order edge at node n
+        return [n, None if rng.random() < 0.75 else arity[n][d]]
+
+    def fill(parent, ins, outs, depth):
+        inp = add({"op": "Input", "types": _copy.deepcopy(ins)}, parent)
+        out = add({"op": "Output", "types": _copy.deepcopy(outs)}, parent)
+        arity[inp], arity[out] = (0, len(ins)), (len(outs), 0)
+        sources = [(inp, k, t) for k, t in enumerate(ins)]
+        seq, nested = [inp], []
+        for _ in range(rng.choice([1, 2, 2, 3, 4])):
+            kind = rng.choice(kinds)
+            j, vi, vo, st = _jdfop(rng, kind, callee)
+            n = add(j, parent)
+            arity[n] = (len(vi) + st, len(vo))
+            for k, t in enumerate(vi):
+                cands = [s for s in sources if s[2] == t]
+                if cands and rng.random() < 0.85:
+                    s = rng.choice(cands)
+                    edges.append([[s[0], s[1]], [n, k]])
+            if kind in ("Call", "LoadFunction"):
+                edges.append([[1, 0], [n, len(vi)]])
+            if kind == "LoadConstant":
+                c = add({"op": "Const", "v": {"v": "Sum", "tag": 0, "typ": _copy.deepcopy(vo[0]), "vs": []}}, parent)
+                edges.append([[c, 0], [n, 0]])
+            sources += [(n, k, t) for k, t in enumerate(vo)]
+            seq.append(n)
+            if kind == "DFG" and depth > 0:
+                nested.append((n, vi, vo))
+        for k, t in enumerate(outs):
+            cands = [s for s in sources if s[2] == t]
+            if cands and rng.random() < 0.85:
+                s = rng.choice(cands)
+                edges.append([[s[0], s[1]], [out, k]])
+        seq.append(out)
+        order = set()
+        if rng.random() < 0.7:                      # a chain through at least one inner node
+            mid = [n for n in seq[1:-1] if rng.random() < 0.7] or [rng.choice(seq[1:-1])]
+            chain = ([inp] if rng.random() < 0.8 else []) + mid + ([out] if rng.random() < 0.8 else [])
+            order |= set(zip(chain, chain[1:]))
+        for a in range(len(seq)):
+            for b in range(a + 1, len(seq)):
+                if rng.random() < 0.12:
+                    order.add((seq[a], seq[b]))
+        for a, b in sorted(order):
+            edges.append([end(a, 1), end(b, 0)])
+        for n, vi, vo in nested:
+            fill(n, vi, vo, depth - 1)
+
+    fill(top, top_i, top_o, 1)
+    rng.shuffle(edges)
+    doc = {"version": "live", "nodes": [T.shuffle_keys(rng, x) for x in nodes], "edges": edges}
+    r = rng.random()
+    if r < 0.5:
+        doc["metadata"] = [rng.choice(META) for _ in nodes]
+    elif r < 0.6:
+        doc["metadata"] = None
+    if rng.random() < 0.5:
+        doc["encoder"] = rng.choice(["hugr-rs v0.15.0", None])
+    return T.shuffle_keys(rng, doc)
+
+
+WIRE_KINDS = ["Call", "CallIndirect", "LoadConst", "LoadFunc", "DFG", "Conditional", "TailLoop", "CFG", "Custom", "ExtOp",
+              "MakeTuple", "UnpackTuple", "Noop", "Tag"]
+
+
+def wire_rows(op):
+    """(value input row, output row) of a dataflow operation through the public accessors, None when it has none
+    (not a dataflow operation, incomplete, a Tag naming no variant)."""
+    ops = env()["ops"]
+    try:
+        if isinstance(op, ops.Call):
+            return list(op.instantiation.input), list(op.instantiation.output)
+        if isinstance(op, ops.DataflowOp) and not isinstance(op, ops.Input | ops.Output):
+            sig = op.outer_signature()
+            return list(sig.input), list(sig.output)
+    except WalkError:
+        raise
+    except Exception:
+        return None
+    return None
+
+
+def wired_hugr(op, rows, meta):
+    """The operation between Input and Output of a DFG-rooted HUGR built through the public API: a value link on every
+    value port, a state-order link Input -> op and one op -> Output (so the operation's node has an order edge on BOTH
+    sides; its static input port, if any, stays open).  Returns (hugr, input node, output node, the operation's node)."""
+    from hugr.hugr import Hugr
+    ops = env()["ops"]
+    ins, outs = rows
+    h = Hugr(ops.DFG(list(ins), list(outs)))
+    inp = h.add_node(ops.Input(list(ins)), h.root, len(ins))
+    out = h.add_node(ops.Output(list(outs)), h.root)
+    node = h.add_node(op, h.root, len(outs), metadata=meta)
+    for i in range(len(ins)):
+        h.add_link(inp.out(i), node.inp(i))
+    for i in range(len(outs)):
+        h.add_link(node.out(i), out.inp(i))
+    h.add_order_link(inp, node)
+    h.add_order_link(node, out)
+    return h, inp, out, node
+
+
+def link_facts(h):
+    """Every link of a HUGR through the public API: sorted (source node, offset, target node, offset) with the order
+    port as -1, and the state-order successors of every node."""
+    links = sorted((s.node.idx, s.offset, d.node.idx, d.offset) for s, d in h.links())
+    order = sorted((n.idx, m.idx) for n in h for m in h.outgoing_order_links(n))
+    order_in = sorted((m.idx, n.idx) for n in h for m in h.incoming_order_links(n))
+    return links, order, order_in
